@@ -59,7 +59,11 @@ class Dmn(Family):
                 steps.append(st("set_vring_enable", [q, rng.below(2)]))
             elif k == 7:
                 steps.append(st("get_vring_base", [q]))
-                cur_kick.pop(q, None)
+                old = cur_kick.pop(q, None)
+                if old is not None and rng.chance(1, 2):
+                    # the guest still holds the descriptor the stopped ring has given up: a kick on it reaches nobody
+                    steps.append(st("kick", [old]))
+                    steps.append(st("queue_state", [q if q < nq else 0]))
             elif k == 8 and rng.chance(1, 2):
                 # polling mode: the ring gives its kick descriptor up; a later SET_VRING_KICK installs a new one
                 steps.append(st("set_vring_kick_nofd", [q if q < 256 else 0]))
@@ -292,6 +296,20 @@ class Dmn(Family):
                     steps.append(st("set_log_base", [size, off, 4]))
                     if size >= need and off % 0x1000 == 0 and size > 0:
                         log[0] = (size, off)
+                    if table and size >= need and off % 0x1000 == 0 and size > 0 and rng.chance(1, 3):
+                        # rounds of concurrent writers on pages whose bits share one log byte (each round starts from a
+                        # cleared byte): no bit may ever be missing; then the same writes once more as a plain step, which
+                        # is what the model and the byte oracle account for
+                        cands = [r for r in table if r[1] >= 0x2000 and (r[0] // 4096) % 8 + 1 < 8]
+                        if cands:
+                            r = rng.choice(cands)
+                            p0 = r[0] // 4096
+                            npages = min(r[1] // 4096, 8 - p0 % 8, 2 + rng.below(7))
+                            if npages >= 2:
+                                gpas = [r[0] + 4096 * i + rng.choice([0, 8, 0xff0]) for i in range(npages)]
+                                d = rng.bytes(1)
+                                steps.append(st("par_stress", [4, off + p0 // 8, 3000] + gpas, d))
+                                steps.append(st("par_write", gpas, d))
                     if table and rng.chance(1, 2):
                         # 2..16 concurrent writers on pages that share log bytes
                         r = rng.choice(table)
@@ -568,3 +586,14 @@ class Dmn(Family):
 
     def nontrivial(self, args, obs):
         return '(VL [(VL [(VN' in obs
+
+
+class DmnReplies(Dmn):
+    """the daemon as the server of reply-bearing requests whose handler fails (C03): ring histories (GET_VRING_BASE with
+    ring indexes the handler refuses) and ring-resize histories (GET_QUEUE_NUM before every step)"""
+
+    def generate(self, rng, tier):
+        n = 150 if tier == "quick" else 1500
+        out = [(self.ring_history(rng, 4 + rng.below(14)), "ring-history") for _ in range(n)]
+        out += [(self.resize_history(rng), "ring-resize") for _ in range(n // 3)]
+        return out
